@@ -25,6 +25,11 @@ func text(id string) string {
 		return "Recording not started: disk 97% used on /var/spool/cptv"
 	case "2":
 		return "Can't start recording file: open /tmp/a%20b/%s%d%v: no such file"
+	// long messages (a path error with the recording's file name crosses 100 bytes); 3 and 4 share their first 120 bytes
+	case "3":
+		return "Failed to write to CPTV file write /var/spool/cptv/20210304.101112.123.cptv.temp.tmp: no space left on device; recording 20210304.101112.123 abandoned (A)"
+	case "4":
+		return "Failed to write to CPTV file write /var/spool/cptv/20210304.101112.123.cptv.temp.tmp: no space left on device; recording 20210304.101112.123 abandoned (B)"
 	}
 	return "message-" + id
 }
@@ -106,7 +111,8 @@ func gen(r *common.Rng, tier string, w *bufio.Writer) {
 	}
 	for i := 0; i < cases; i++ {
 		iv := r.Pick64(1, 10, 1000, int64(time.Minute), int64(time.Minute))
-		nm := r.Pick(1, 2, 3)
+		nm := r.Pick(1, 2, 3, 5, 5)
+		long := nm == 5 && r.Chance(50) // only the two long messages: repeats of each, alternation between them
 		t := int64(r.Pick(0, 5, int(time.Minute), 2*int(time.Minute)))
 		var ops []string
 		for j := 0; j < r.Range(5, 60); j++ {
@@ -115,7 +121,11 @@ func gen(r *common.Rng, tier string, w *bufio.Writer) {
 			if r.Chance(30) {
 				pf = " f"
 			}
-			ops = append(ops, fmt.Sprintf("m %d %d%s", t, r.Intn(nm), pf))
+			id := r.Intn(nm)
+			if long {
+				id = 3 + r.Intn(2)
+			}
+			ops = append(ops, fmt.Sprintf("m %d %d%s", t, id, pf))
 		}
 		emit(iv, ops)
 	}
